@@ -146,12 +146,14 @@ def main(tier: str) -> int:
         except AttributeError as ex:
             run.model_drift(f'state projection of Decoder unavailable ({ex}): reader state-graph comparison skipped')
             break
-        st = rg.walk(u, edges, faults_at={},
-                     on_violation=lambda clause, what, rp, u=u: run.violation({"clause": clause, "binding": "reader-state-graph", "universe": u}, what, rp),
-                     on_drift=run.model_drift)
-        graph_stats[u] = dict(st, tlc_states=gr.distinct)
+        for integ_ in ("generic", "rdflib"):      # the universes are RDF 1.1: both integrations' adapters sit on the same Decoder
+            st = rg.walk(u, edges, faults_at={}, integ=integ_,
+                         on_violation=lambda clause, what, rp, u=u, integ_=integ_: run.violation(
+                             {"clause": clause, "binding": "reader-state-graph", "universe": u, "integ": integ_}, what, rp),
+                         on_drift=run.model_drift)
+            graph_stats[u + ("" if integ_ == "generic" else "/rdflib")] = dict(st, tlc_states=gr.distinct)
+            gtrans += st["edges_replayed"]
         gstates += gr.distinct
-        gtrans += st["edges_replayed"]
     gen_states = 0
     parses = streams = 0
     samples = []
